@@ -114,18 +114,6 @@ func permuteFields(t *rty) *rty {
 	return &c
 }
 
-func hasObj2(t *rty) bool {
-	if t.k == "obj" && len(t.kids) >= 2 {
-		return true
-	}
-	for _, k := range t.kids {
-		if hasObj2(k) {
-			return true
-		}
-	}
-	return false
-}
-
 func substString(m map[string]*types.Type) string {
 	var xs []string
 	for _, v := range []string{"a", "b"} {
@@ -159,7 +147,7 @@ func c17Pair(x, y *rty, c *chunk) {
 	}
 	if eq != want {
 		cl := "other"
-		if hasObj2(x) && refTyEq(permuteFields(x), y) != want {
+		if want && objFieldOrderDiffers(x, y) {
 			cl = "field-order"
 		}
 		c.fail("C17/equals/not-structural-identity/"+cl, input(), fmt.Sprint(want), fmt.Sprint(eq), "")
@@ -226,6 +214,78 @@ func c17Pair(x, y *rty, c *chunk) {
 	}
 }
 
+// toRealShared builds the yae type with ONE node per distinct composite
+// subterm of this side (a DAG), as a host program does that writes
+// l := List(Num); Obj{x: l, y: l}.
+func toRealShared(t *rty, cache map[string]*types.Type) *types.Type {
+	if len(t.kids) == 0 {
+		return toReal(t)
+	}
+	key := t.String()
+	if r, ok := cache[key]; ok {
+		return r
+	}
+	var r *types.Type
+	kid := func(i int) *types.Type { return toRealShared(t.kids[i], cache) }
+	switch t.k {
+	case "list":
+		r = types.List(kid(0))
+	case "maybe":
+		r = types.Maybe(kid(0))
+	case "map":
+		r = types.Map(kid(0), kid(1))
+	case "obj":
+		fs := make([]types.Field, len(t.kids))
+		for i := range t.kids {
+			fs[i] = types.Field{Name: t.fields[i], Val: kid(i)}
+		}
+		r = types.Obj(fs)
+	case "tuple":
+		xs := make([]*types.Type, len(t.kids))
+		for i := range t.kids {
+			xs[i] = kid(i)
+		}
+		r = types.Tuple(xs)
+	case "fun":
+		n := len(t.kids) - 1
+		xs := make([]*types.Type, n)
+		for i := 0; i < n; i++ {
+			xs[i] = kid(i)
+		}
+		r = types.Fun(t.name, xs, kid(n))
+	}
+	cache[key] = r
+	return r
+}
+
+// c17Shared: the outcome of Unify / Equals must not depend on whether equal
+// subterms are one node or two.
+func c17Shared(x, y *rty, c *chunk) {
+	c.evals++
+	input := fmt.Sprintf("x = %s ; y = %s (equal composite subterms of a side are one shared node)", x, y)
+	var u1, u2 *types.Type
+	var e1, e2 bool
+	if p := catch(func() {
+		u1 = types.Unify(toReal(x), toReal(y), map[string]*types.Type{})
+		e1 = types.Equals(toReal(x), toReal(y))
+	}); p != nil {
+		return // reported by c17Pair
+	}
+	p := catch(func() {
+		sx, sy := toRealShared(x, map[string]*types.Type{}), toRealShared(y, map[string]*types.Type{})
+		e2 = types.Equals(sx, sy)
+		u2 = types.Unify(sx, sy, map[string]*types.Type{})
+	})
+	switch {
+	case p != nil:
+		c.fail("C17/unify/shared-subterm-node/panic", input, fmt.Sprintf("as with unshared nodes: unifies=%v", u1 != nil), fmt.Sprintf("panic: %v", p), "")
+	case (u1 != nil) != (u2 != nil):
+		c.fail("C17/unify/shared-subterm-node/different-outcome", input, fmt.Sprintf("unifies=%v", u1 != nil), fmt.Sprintf("unifies=%v", u2 != nil), "")
+	case e1 != e2:
+		c.fail("C17/equals/shared-subterm-node/different-outcome", input, fmt.Sprint(e1), fmt.Sprint(e2), "")
+	}
+}
+
 func c17Laws(x *rty, others []*rty, rng *rand.Rand, c *chunk) {
 	// reflexivity on a structurally identical fresh copy and on the same pointer
 	c.evals++
@@ -271,8 +331,8 @@ func RunC17(cfg Config) *report.Report {
 	nSample := 60000
 	r := &report.Report{
 		Property: "C17",
-		Contract: "types.Equals(x,y) == structural identity with object fields by name (hence reflexive, symmetric, transitive; also checked directly); types.Unify(x,y,σ) != nil ⇒ σ acyclic (no variable bound to a type containing itself) and σ(x) equal to σ(y) modulo the documented ⊥ rule (⊥ on the right stands for any type; hence no variable bound to two different types); y variable-free ⇒ (Unify(x,y) != nil ⇔ a first-order instantiation of x equal to y exists, reference matcher); Unify / Equals do not panic",
-		Space:    fmt.Sprintf("types over leaves {num str bool time 'a 'b ⊥}, ⊥ only as list[⊥] / map[⊥,⊥] / a bare side (DESIGN Appendix D): all %d types of depth <= 1 (list, maybe, map with any leaf as key, objects {} {x} {x,y} {y,x}, fun of arity 0 and 1), %d types of depth 2 built from 56 depth-1 components (list, maybe, map[str,_], map['a,_], {x}, {x,y:num}, {y:num,x}, {x,y:'a}, {y:'a,x}, fun in both positions); argument tuples (outermost only) of arity 1 and 2 over %d components incl. repeated variables, permuted fields, list[list[⊥]]; ordered pairs (x,y)", len(d1), len(d2), len(el)),
+		Contract: "types.Equals(x,y) == structural identity with object fields by name (hence reflexive, symmetric, transitive; also checked directly); types.Unify(x,y,σ) != nil ⇒ σ acyclic (no variable bound to a type containing itself) and σ(x) equal to σ(y) modulo the documented ⊥ rule (⊥ on the right stands for any type; hence no variable bound to two different types); y variable-free ⇒ (Unify(x,y) != nil ⇔ a first-order instantiation of x equal to y exists, reference matcher); Unify / Equals do not panic and their outcome does not depend on whether equal subterms are one shared node or two",
+		Space:    fmt.Sprintf("types over leaves {num str bool time 'a 'b ⊥}, ⊥ only as list[⊥] / map[⊥,⊥] / a bare side (DESIGN Appendix D): all %d types of depth <= 1 (list, maybe, map with any leaf as key, objects {} {x} {x,y} {y,x}, fun of arity 0 and 1), %d types of depth 2 built from the depth-1 components list[l] maybe[l] map[str,l] map['a,l] {x:l} {x:l,y:num} {y:num,x:l} fun(l)→num (wrapped by list, maybe, map[str,_], map['a,_], {x}, {x,y:num}, {y:num,x}, {x,y:'a}, {y:'a,x}, fun in both positions); argument tuples (outermost only) of arity 1 and 2 over %d components incl. repeated variables, permuted fields, list[list[⊥]]; ordered pairs (x,y); plus all pairs of (e,e) / {x:e,y:e} / list[{x:e,y:e}] built with ONE shared node per repeated component", len(d1), len(d2), len(el)),
 		Rule:     "distinct = ordered pair of rendered types by 64-bit FNV-1a hash; non-trivial = at least one side is not a leaf",
 	}
 	distinct := map[uint64]struct{}{}
@@ -321,6 +381,20 @@ func RunC17(cfg Config) *report.Report {
 			}
 		}))
 	}
+	// shared nodes: pairs of 2-tuples / two-field objects with a repeated component
+	var rep []*rty
+	for _, e := range el {
+		if len(e.kids) > 0 {
+			rep = append(rep, tTuple(e, e), tObj("x", e, "y", e), tList(tObj("x", e, "y", e)))
+		}
+	}
+	mergeCounts(counts, parallel(r, distinct, len(rep), func(i int, c *chunk) {
+		for _, y := range rep {
+			c.nontrivial2("shared:"+rep[i].String(), y.String())
+			c17Shared(rep[i], y, c)
+		}
+	}))
+
 	// variables on both sides of a tuple pair
 	mergeCounts(counts, parallel(r, distinct, 16, func(i int, c *chunk) {
 		rng := rand.New(rand.NewSource(cfg.Seed*2003 + int64(i)))
@@ -341,7 +415,7 @@ func RunC17(cfg Config) *report.Report {
 		r.Notes = append(r.Notes, "Quick tier: pairs of depth <= 1 are enumerated completely, depth 2 and tuples are sampled, so the space as a whole is not exhausted.")
 	}
 	r.Notes = append(r.Notes, "Observation outside the domain (not a failure): with ⊥ in a function parameter, e.g. x = map['a,fun('a)→num], y = map[str,fun(⊥)→num], Unify succeeds although the second occurrence of 'a meets ⊥ (parameters are substituted before they are unified), while the same shape under list / map / object fails; such types are not types of any expression.")
-	r.Notes = append(r.Notes, "Every yae type is built afresh for each call (no node shared between the two sides or between two occurrences), as the type checker does for the pattern side.")
+	r.Notes = append(r.Notes, "Except in the shared-node family every yae type is built afresh for each call (no node shared between the two sides or between two occurrences), as the type checker does for the pattern side.")
 	noteCounts(r, counts)
 	return r
 }
